@@ -90,7 +90,9 @@ func Walk(ctx context.Context, fileSystem fs.FS, prefix, delimiter, marker strin
 		if path == "." {
 			return nil
 		}
-		if contains(d.Name(), skipdirs) {
+		// the directories to skip lie directly in the bucket; deeper down
+		// their names are names like any other
+		if contains(path, skipdirs) {
 			return fs.SkipDir
 		}
 
@@ -395,7 +397,9 @@ func WalkVersions(ctx context.Context, fileSystem fs.FS, prefix, delimiter, keyM
 		if path == "." {
 			return nil
 		}
-		if contains(d.Name(), skipdirs) {
+		// the directories to skip lie directly in the bucket; deeper down
+		// their names are names like any other
+		if contains(path, skipdirs) {
 			return fs.SkipDir
 		}
 
